@@ -267,10 +267,11 @@ VARIANTS = {
 # distribution that is sampled (probability) is the one psi / rho define (C01.R1-R3, C02).
 NEIGHBOURS = {
     "C01": [("c20", ("C20.R2",))],                                    # "the modulus depends only on the amplitude network": the two networks of a state do not share parameter storage
-    "C03": [("c04", ("C04.R2", "C04.R3", "C04.R4"))],                 # gradients in a rotated basis are built from the rotated amplitudes / probabilities and their terms
-    "C06": [("c03", ("C03.R2",))],                                   # gradient layout = parameter registration order
-    "C08": [("c01", ("C01.R1", "C01.R2", "C01.R3")), ("c02", ("C02.R",))],  # sampled distribution = |psi|^2 / diag(rho); rho well-formed
-    "C09": [("c01", ("C01.R1", "C01.R2", "C01.R3")), ("c02", ("C02.R",))],
+    "C03": [("c04", ("C04.R2", "C04.R3", "C04.R4", "C04.R5")), ("c15", ("C15.R2",))],                 # gradients in a rotated basis are built from the rotated amplitudes / probabilities and their terms
+    "C06": [("c03", ("C03.R2",)), ("c20", ("C20.R2",))],                                   # gradient layout = parameter registration order
+    "C08": [("c01", ("C01.R1", "C01.R2", "C01.R3")), ("c02", ("C02.R",)), ("c15", ("C15.R5",))],  # sampled distribution = |psi|^2 / diag(rho); rho well-formed
+    "C09": [("c01", ("C01.R1", "C01.R2", "C01.R3")), ("c02", ("C02.R",)), ("c15", ("C15.R5",))],
+    "C11": [("c17", ("C17.R4",))],                                    # the periodic saver hands save() the metadata object it was given
     "C10": [("c01", ("C01.R1", "C01.R2", "C01.R3", "C01.R5")), ("c02", ("C02.R",))],  # + Z = sum of probabilities
     "C12": [("c07", ("C07.R2", "C07.R6"))],                                   # one batch-start/batch-end pair per batch: ceil(N / pos_batch_size) batches per epoch
     "C13": [("c08", ("C08.R1",)), ("c16", ("C16.R5",))],             # estimators (built-in and composite) leave the chain state alone                                   # estimators leave the chain state alone
